@@ -788,10 +788,15 @@ fn gen_c18(ctx: &mut Ctx) {
         cases.push((format!("QS.{}", a), enc(a, t, &d, true)));
     }
     cases.push((format!("RO.{}.SLP", a), enc(a, 4, &[0x11, 0x00], true)));
+    // an echo of the request (a two-wire line with local echo) ahead of an in-progress report: the reply of this exchange
+    // is the echo (not paced); the report stays in the port for the next exchange
+    cases.push((format!("QS.{}", a), [enc_msg(&format!("QS.{}", a)), enc_msg(&format!("RS.{}.PLP", a))].concat()));
+    cases.push((format!("RO.{}.SLP", a), [enc_msg(&format!("RO.{}.SLP", a)), enc_msg(&format!("RS.{}.PSP", a))].concat()));
+    cases.push((format!("HE.{}", a), [enc_msg("SD.16.0102"), enc_msg(&format!("HE.{}", a)), enc_msg(&format!("RS.{}.PSP", a))].concat()));
     // the same exchanges on a port whose transfers take real time (paced kinds and a few unpaced ones)
     let mut timed: Vec<(String, Vec<u8>, bool)> = cases.iter().map(|(m, t)| (m.clone(), t.clone(), false)).collect();
     for (m, tape) in &cases {
-        let paced_reply = tape.len() > 10 && { let d = dec(tape); d.ends_with(".13") || d.ends_with(".11") };
+        let paced_reply = tape.len() > 10 && { let d = dec(first_line(tape).0); d.ends_with(".13") || d.ends_with(".11") };
         if m.starts_with("SD.") || paced_reply || m == "GB.3" || m == "DC.2" || (m.starts_with("QS.") && dec(tape).ends_with(".10")) || m.starts_with("RO.3.RPX") {
             timed.push((m.clone(), tape.clone(), true));
         }
@@ -801,13 +806,13 @@ fn gen_c18(ctx: &mut Ctx) {
         let res = ctx.case(line.clone(), true, &m[..2]);
         // property-level monitor, independent of the model
         let want_send = m.starts_with("SD.") as u8;
-        let d = dec(&tape);
+        let d = dec(first_line(&tape).0);
         let want_recv = (d.starts_with("OK ") && {
             let p: Vec<&str> = d[3..].split('.').collect();
             p[1] == "4" && (p[2] == "13" || p[2] == "11")
         } && (m.starts_with("QS.") || m.starts_with("HE.") || m.starts_with("RO."))) as u8;
-        let want = format!("send={} recv={}", want_send, want_recv);
-        ctx.monitor(res == want, "C18-pacing", &line, &format!("wanted [{}] got [{}]", want, res));
+        let want = format!("send={} recv={} reply=", want_send, want_recv);
+        ctx.monitor(res.starts_with(&want), "C18-pacing", &line, &format!("wanted [{}...] got [{}]", want, res));
     }
     // a long busy period: several hundred in-progress reports in a row on one bus, every one of them paced; and a run of
     // other reports, none of them paced.  (Takes n x 100 ms of real time: left out where FDX_SKIP_SLOW is set.)
